@@ -562,6 +562,8 @@ def check_C13(ctx):
     n = 90 if ctx.quick() else 1200
     sched_check(ctx, n, {'nwriters': 3, 'nreaders': 3}, mon_C13_sched)
     sched_check(ctx, n // 2, {'nwriters': 1, 'nreaders': 3, 'fixed': ['compact', 'plan'], 'pre_steps': 10}, mon_C13_sched)
+    # readers on a log whose tail a crashed writer left torn, while writers repair / rewrite it under them
+    sched_check(ctx, n // 2, {'nwriters': 1, 'nreaders': 3, 'fixed': ['new', 'compact'], 'pre_steps': 8, 'pre_tear': True}, mon_C13_sched)
     write_syscall_probe(ctx, 'C13')
     if not ctx.quick():
         orders = interleavings(5, 3)
@@ -1144,7 +1146,7 @@ def check_C08(ctx):
     tags = {'ReadyFlag', 'BlockedFlag', 'ClaimOrder', 'Reply', 'Exit', 'Events'}
     n, steps = sizes(ctx, (48, 30), (500, 40))
     prof = {'weights': {'new': 28, 'set': 30, 'claim': 20, 'seq': 22, 'prune': 6, 'plan': 4, 'seqrm': 3},
-            'states': ['done', 'canceled', 'todo', 'todo', 'doing', 'blocked', 'error']}
+            'states': ['done', 'canceled', 'todo', 'todo', 'doing', 'blocked', 'error'], 'prelude': 'epic_chain'}
     driver.history_check(ctx, tags, n, steps, profile=prof)
     driver.log_check(ctx, {'ReadyFlag', 'BlockedFlag', 'ClaimOrder', 'ReplayErr', 'LiveSet'}, *sizes(ctx, (250, 30), (4000, 36)),
                      monitor=mon_ready_logs, nids=7)
